@@ -28,7 +28,7 @@ func VerifC04BucketsSetup() {
 	// two analytic functions partitioning by different, non-leading columns
 	verifC04Queries[7] = verifParseSelect("select id, count(*) over (partition by k), count(*) over (partition by g), count(*) over (partition by id), count(*) over (partition by g, k) from t")
 	// DISTINCT inside aggregates, in default and in strict mode
-	verifC04Queries[8] = verifParseSelect("select count(distinct k), count(k) from t")
+	verifC04Queries[8] = verifParseSelect("select count(distinct k), count(k), count(distinct 7), count(7), count(distinct null) from t")
 	// the numeric and structured aggregates over the bucket's rows
 	verifC04Queries[9] = verifParseSelect("select k, sum(id), avg(id), median(id), json_agg(id), var(id), stdev(id) from t group by k")
 }
@@ -185,6 +185,9 @@ func VerifC04Buckets() {
 		if view.RecordLen() == 1 {
 			verifAssert("count(distinct k) counts the buckets of the non-NULL keys", verifIntCell(view.RecordSet[0][0][0]) == int64(distinct))
 			verifAssert("count(k) counts the non-NULL keys", verifIntCell(view.RecordSet[0][1][0]) == int64(nonNull))
+			verifAssert("count(distinct <constant>) counts one value", verifIntCell(view.RecordSet[0][2][0]) == 1)
+			verifAssert("count(<constant>) counts the rows", verifIntCell(view.RecordSet[0][3][0]) == int64(n))
+			verifAssert("count(distinct NULL) counts nothing", verifIntCell(view.RecordSet[0][4][0]) == 0)
 		}
 	case 0:
 		verifAssert("one group per class", view.RecordLen() == len(reps))
